@@ -158,6 +158,12 @@ def apply_special(fmt, obj, name, k):
             obj.images.images[plat]["kernel"] = "/boot/vmlinuz"
             return "images[%s]" % plat, 1
         if name == "unreferenced-platform":
+            if k % 2:
+                # the arch is listed automatically on WRITE, but image tables are checked against the platforms the tree
+                # really names: images for the arch while tree.platforms does not name it
+                obj.tree.platforms.discard(obj.tree.arch)
+                obj.images.images.setdefault(obj.tree.arch, {})["kernel"] = "vmlinuz"
+                return "images[<tree arch>] with the arch missing from tree.platforms", 1
             obj.images.images["ghost_platform"] = {"kernel": "vmlinuz"}
             return "images[ghost_platform]", 1
         if name == "absolute-checksum-path":
